@@ -26,8 +26,9 @@ VARIABLES l,        \* next line of the trace
           ids,      \* uid -> implementation identifier (for the alias cause)
           hist,     \* number of the current history
           stats,    \* counters for the evidence
+          disUpd,   \* implementation identifiers of the attributes that were disabled at the last successful update
           done
-vars == <<l, g, viol, sync, opened, seen, vmsk, ids, hist, stats, done>>
+vars == <<l, g, viol, sync, opened, seen, vmsk, ids, hist, stats, disUpd, done>>
 
 Has(r, f) == f \in DOMAIN r
 Get(r, f, dflt) == IF f \in DOMAIN r THEN r[f] ELSE dflt
@@ -50,6 +51,7 @@ Init == /\ l = 1
         /\ ids = EmptyFn
         /\ hist = 0
         /\ stats = Stats0
+        /\ disUpd = {}
         /\ done = FALSE
 
 (***************************************************************************)
@@ -251,6 +253,22 @@ RightHint(m, r) ==
     IN IF known THEN (IF \E i \in 1..Len(r) : \E a \in A : a.id = r[i] /\ a.h THEN "hyb" ELSE "classic")
        ELSE "unknown"
 
+\* C06 directly on the logged views (independent of the abstract state): no public key produced at or
+\* after an update publishes a right that involves an attribute which was disabled at the last update
+DisabledIds(m) == {a.id : a \in {x \in ViewAttrs(m) : ~x.a}}
+SharedIds(m) == {a.id : a \in {x \in ViewAttrs(m) : \E y \in ViewAttrs(m) : y # x /\ y.id = x.id}}
+DisUpdAfter(ev) == IF ev.op = "update" /\ ev.res = "ok" /\ Has(ev, "mpkv") THEN DisabledIds(ev.mpkv) ELSE disUpd
+PublishedDisabledViol(ev) ==
+    IF Has(ev, "mpkv") /\ ev.res = "ok" /\ ev.op \in {"update", "rekey", "prune", "mpk"}
+    THEN LET dis == DisUpdAfter(ev) \cap DisabledIds(ev.mpkv)
+             hits == {i \in 1..Len(ev.mpkv.keys) : \E j \in 1..Len(ev.mpkv.keys[i].r) : ev.mpkv.keys[i].r[j] \in dis}
+         IN IF hits # {}
+            THEN {Vio({"C06"}, "a public key publishes a right involving an attribute disabled before the last update",
+                      IF \E i \in hits : \E j \in 1..Len(ev.mpkv.keys[i].r) : ev.mpkv.keys[i].r[j] \in SharedIds(ev.mpkv) THEN "alias" ELSE "none",
+                      <<ev.op, {ev.mpkv.keys[i].r : i \in hits}>>)}
+            ELSE {}
+    ELSE {}
+
 FlavourViol(g2, ev) ==
     LET m == ViewMsk(ev)
     IN (IF Has(ev, "msk") /\ ev.res = "ok" /\ ev.op = "update"
@@ -405,6 +423,7 @@ Reset(ev) ==
     /\ ids' = EmptyFn
     /\ hist' = Get(ev, "hist", hist + 1)
     /\ stats' = Bump(stats, "histories", 1)
+    /\ disUpd' = {}
     /\ viol' = viol
 
 Call(ev) ==
@@ -414,7 +433,7 @@ Call(ev) ==
         g2 == IF follow THEN Apply(ev) ELSE g
         g3 == g2
         m == ViewMsk(ev)
-        newviol == ContractViol(ev, v) \cup RoundTripViol(ev) \cup FreshViol(ev) \cup DriftViol(ev) \cup HeaderViol(ev)
+        newviol == ContractViol(ev, v) \cup RoundTripViol(ev) \cup FreshViol(ev) \cup DriftViol(ev) \cup HeaderViol(ev) \cup PublishedDisabledViol(ev)
                    \cup (IF lostSync THEN {} ELSE
                            OpensViol(g3, ev) \cup RecapsViol(g3, ev) \cup FlavourViol(g3, ev)
                            \cup HeldViol(ev) \cup IdViol(ev))
@@ -425,12 +444,18 @@ Call(ev) ==
        /\ seen' = seen \cup Range(Get(ev, "fresh", <<>>))
        /\ vmsk' = m
        /\ ids' = IdsFrom(g3, m)
+       /\ disUpd' = DisUpdAfter(ev)
        /\ hist' = hist
        /\ stats' = IF lostSync THEN Bump(Bump(stats, "desync", 1), "events", 1)
                    ELSE StatStep(g3, ev, v)
 
 Skip(ev) ==
-    /\ UNCHANGED <<g, sync, viol, opened, seen, vmsk, ids, hist>>
+    /\ UNCHANGED <<g, sync, opened, seen, vmsk, ids, hist>>
+    \* monitors that only need the logged views keep running when the abstract state lost track
+    /\ disUpd' = IF ev.res = "skip" THEN disUpd ELSE DisUpdAfter(ev)
+    /\ viol' = viol \cup (IF ev.res = "skip" THEN {} ELSE
+                            {x \in PublishedDisabledViol(ev) \cup RoundTripViol(ev) \cup FreshViol(ev) :
+                                ~\E y \in viol : y.hist = x.hist /\ y.what = x.what /\ y.detail = x.detail})
     /\ stats' = Bump(stats, "events", 1)
 
 Next ==
@@ -448,7 +473,7 @@ Next ==
        /\ PrintT(<<"PTRACE-STATS", ToJson(stats)>>)
        /\ \A x \in viol : PrintT(<<"PTRACE-VIOL", ToJson(x)>>)
        /\ PrintT(<<"PTRACE-DONE", l - 1, Cardinality(viol)>>)
-       /\ UNCHANGED <<l, g, viol, sync, opened, seen, vmsk, ids, hist, stats>>
+       /\ UNCHANGED <<l, g, viol, sync, opened, seen, vmsk, ids, hist, stats, disUpd>>
 
 Spec == Init /\ [][Next]_vars
 
